@@ -216,8 +216,13 @@ pub fn run_case(rng: &mut Rng, sc: &Scenario, cfg: &RunCfg, model: &mut Model, r
             }
             let mut all = Vec::new();
             walk(&v.tree, &mut Vec::new(), &mut all);
-            for (p, len, dig) in all.into_iter().take(6) {
-                flushed.push((vi, p, len, dig));
+            // up to 16 of them, evenly spread over the walk (first and last clusters of the volume, every directory)
+            let want = 16usize;
+            let n_all = all.len();
+            for (j, (p, len, dig)) in all.into_iter().enumerate() {
+                if n_all <= want || (j * want) / n_all != ((j + 1) * want) / n_all {
+                    flushed.push((vi, p, len, dig));
+                }
             }
         }
     }
@@ -905,7 +910,7 @@ pub fn c03(ctx: &Ctx) -> Report {
     let mut rng = Rng::new(ctx.seed ^ 0xC03);
     let n = budget(ctx, 40, 1200);
     for k in 0..n {
-        let o = ScOpts { fat32: Some(k % 4 == 0), keep_free: if k % 2 == 0 { Some(vec![0, 1, 2, 5]) } else { None }, small_root: k % 3 == 1, big_tree: k % 3 != 1, full_dir: k % 3 == 2, dirty: k % 2 == 1 || k % 6 == 2, bpc_choices: vec![1, 1, 2, 4], ..Default::default() };
+        let o = ScOpts { fat32: Some(k % 4 == 0), keep_free: if k % 2 == 0 { Some(vec![0, 1, 2, 5]) } else { None }, small_root: k % 3 == 1, big_tree: k % 3 != 1, full_dir: k % 3 == 2, dirty: k % 2 == 1 || k % 6 == 2, stale_info: k % 8 == 4, bpc_choices: vec![1, 1, 2, 4], ..Default::default() };
         let sc = make_scenario(&mut rng, &o);
         let mut cfg = RunCfg::base(budget(ctx, 40, 60), if k % 2 == 0 { Profile::space() } else { Profile::namespace() });
         cfg.fsck_every_op = true;
@@ -1067,7 +1072,7 @@ pub fn c09(ctx: &Ctx) -> Report {
     let mut rng = Rng::new(ctx.seed ^ 0xC09);
     let n = budget(ctx, 30, 1000);
     for k in 0..n {
-        let o = ScOpts { fat32: Some(k % 3 == 0), dirty: k % 2 == 0, keep_free: if k % 4 == 0 { Some(vec![2, 5, 30]) } else { None }, small_root: k % 5 == 1, bpc_choices: vec![1, 2, 4], full_dir: k % 2 == 1, ..Default::default() };
+        let o = ScOpts { fat32: Some(k % 3 == 0), dirty: k % 2 == 0, keep_free: if k % 4 == 0 { Some(vec![2, 5, 30]) } else { None }, small_root: k % 5 == 1, bpc_choices: vec![1, 2, 4], full_dir: k % 2 == 1, stale_info: k % 6 == 3, ..Default::default() };
         let sc = make_scenario(&mut rng, &o);
         let mut cfg = RunCfg::base(budget(ctx, 40, 60), Profile::namespace());
         cfg.profile.w_flush = 10;
